@@ -52,6 +52,12 @@ Theorem C13_atom_inverse :
   forall d, wf_rel d = true -> parse_rel (pp_atomic d) = Ok (d, false).
 Proof. exact parse_rel_pp_atomic. Qed.
 
+(** 5. Consequence: on the domain the formatter is injective — two different
+       structures are never written as the same text. *)
+Theorem C13_str_injective :
+  forall r1 r2, wf_rels r1 = true -> wf_rels r2 = true -> rel_str r1 = rel_str r2 -> r1 = r2.
+Proof. exact str_injective. Qed.
+
 (** Non-vacuity: a structure with three conjuncts, alternatives, every optional
     part, a negated architecture, two restriction groups with a negated profile and
     odd-but-valid names is in the domain; so are the five relational operators; and
@@ -95,3 +101,4 @@ Print Assumptions C13_str_parse_str.
 Print Assumptions C13_roundtrip_judgement.
 Print Assumptions C13_leaf_recognises_formatted_atom.
 Print Assumptions C13_atom_inverse.
+Print Assumptions C13_str_injective.
